@@ -33,6 +33,13 @@ def run(ctx):
     rr.r_entry_points(ctx)
     # premise C01 ("no stored item is ever unreachable"): its structural clauses are re-checked here
     from props import C01, C11
-    C01.rules(ctx)
+    import premises
+    premises.forest(ctx)
     # premise C11 ("each with its true distance"): its structural clauses are re-checked as well
     C11.structural(ctx)
+    # a metric change is one of the histories: the re-encoded leaf (header of the new metric over the entry's own vector at
+    # the declared dimension) is what distances are computed from afterwards
+    from props import C18
+    import vec_rules
+    C18.r_reencode_value(ctx)
+    vec_rules.trunc_rule(ctx, 'R-TRUNC', only=['prepare_changing_distance'])
